@@ -352,7 +352,7 @@ fn read_all_thread(b: std::os::unix::net::UnixStream) -> std::thread::JoinHandle
     std::thread::spawn(move || {
         use std::io::Read;
         let mut b = b;
-        b.set_read_timeout(Some(Duration::from_millis(2000))).unwrap();
+        b.set_read_timeout(Some(Duration::from_millis(10_000))).unwrap();
         let mut all = vec![];
         let mut buf = vec![0u8; 1 << 16];
         loop {
